@@ -493,7 +493,7 @@ func (s *Sched) loop() {
 		}
 		if len(s.ready) == 0 {
 			s.mu.Unlock()
-			if s.cfg.Stable != nil && !s.inStable && s.steps != s.stableSteps {
+			if s.cfg.Stable != nil && !s.inStable && s.steps != s.stableSteps && s.stalled == 0 {
 				s.inStable = true
 				s.out.StablePoints++
 				if s.cfg.Stable() {
